@@ -564,7 +564,104 @@ fn run_total(seed: u64, n: usize, out: &mut Out) {
 pub fn run(seed: u64, n: usize, out: &mut Out, tier: &str) {
     run_parse(seed, n / 2, out);
     run_lines(seed, n, out);
+    run_cparse(seed, n / 2, out);
+    run_sargs(seed, n / 4, out);
     run_meta(seed, n / 8, out);
     run_lists(seed, n / 6, out);
     run_total(seed, if tier == "quick" { 60 } else { 1500 }, out);
+}
+
+// ---------------------------------------------------------------------------------------------
+// the cosmetic rule parser against its Lean model
+fn show_cosmetic(f: &CosmeticFilter) -> String {
+    use adblock::filters::cosmetic::{CosmeticFilterAction, CosmeticFilterMask};
+    let o = |v: &Option<Vec<u64>>| match v {
+        None => "-".to_string(),
+        Some(v) => format!("+{}", v.iter().map(|x| x.to_string()).collect::<Vec<_>>().join(",")),
+    };
+    let (ak, aa) = match &f.action {
+        None => ("-".to_string(), String::new()),
+        Some(CosmeticFilterAction::Remove) => ("Remove".to_string(), String::new()),
+        Some(CosmeticFilterAction::Style(a)) => ("Style".to_string(), hex(a)),
+        Some(CosmeticFilterAction::RemoveAttr(a)) => ("RemoveAttr".to_string(), hex(a)),
+        Some(CosmeticFilterAction::RemoveClass(a)) => ("RemoveClass".to_string(), hex(a)),
+    };
+    format!(
+        "{};{};{};{};{};{};{};{};{}",
+        o(&f.entities),
+        o(&f.hostnames),
+        o(&f.not_entities),
+        o(&f.not_hostnames),
+        f.mask.contains(CosmeticFilterMask::UNHIDE) as u8,
+        f.mask.contains(CosmeticFilterMask::SCRIPT_INJECT) as u8,
+        hex(f.plain_css_selector().unwrap_or("<procedural>")),
+        ak,
+        aa
+    )
+}
+
+fn cosmetic_line(r: &mut Rng, scripts: &[String]) -> String {
+    let base = match r.below(10) {
+        0 | 1 => r.pick(&["a.com,~b.com##.x", "a.*##.x", "~a.*##.x", "a.*,b.com##.x", "/re/##.x", "a.com,/re/##.x", ",a.com,,##.x", "~a.com##.x", "~a.com,~b.com##.x", "a.com#@#.x", "~a.com#@#.x", "##.x", "#@#.x", "a.com##.x:has(.y)", "a.com##+js(f1)", "a.com##.x:style(a: b)", "a.com##.x:remove()", "A.COM##.X", "~##.x", ".*##.x", "a.com.*##.x",
+            "[$path=/x]a.com##.y", "a.com#?#.x", "a.com#@?#.x", "a.com#$#.x", "a.com#%#x", "a.com#@%#x", "a.com#@$#x", "a.com#x#.y", "a.com#", "a.com##", "a.com## ", "a.com##\u{a0}", "a.com##^script", "a.com##^script:has-text(x)", "##^x", "a.com##+js()", "a.com##+js( )", "##+js(f1)", "#@#+js()", "a.com#@#+js()", "a.com##+js(f1", "a.com##+js",
+            "a.com##.x:style(", "a.com##.x:style()", "a.com##.x:style(a:b) ", "a.com##.x:style(a:b)x", "a.com##.x:remove-attr(y)", "a.com##.x:remove-attr(/y/)", "a.com##.x:remove-attr(\"y\")", "a.com##.x:remove-attr('y')", "a.com##.x:remove-class(y)", "a.com##.x:remove-class(/y/)", "a.com##:remove()", "##.x:remove()", "##.x:style(a: b)", "a.com##.x:style(a):remove-attr(b)", "a.com##.x:remove-attr(b):style(a)", "a.com#@#.x:style(a: b)", "~a.com#@#.x",
+            "a.com##+js(f1, \"a, b\", c)", "a.com##+js(f1, \"a)", "a.com##+js(f1, \"a\" b)", "a.com##+js(f1, 'a' , c)", "a.com##+js(f1, a\\, b)", "a.com##+js(f1, `x`)", "a.com##+js(f1,)", "a.com##+js(f1, )", "a.com##+js(,)", "a.com##+js(\"a\" )", "a.com##+js(\"a\\\"b\")"]).to_string(),
+        2 | 3 | 4 => crate::cosm::gen_rule(r, scripts),
+        5 => format!("{}##+js({})", r.pick(&["a.com", "a.com,b.com", "~a.com", "a.*"]), sarg_soup(r)),
+        _ => {
+            let loc = (0..r.below(4)).map(|_| r.pick(&["a.com", "~b.com", "c.*", "~d.*", "/re/", "", "sub.a.com", "A.com", "~", ".*", "x", "10.0.0.1"]).to_string()).collect::<Vec<_>>().join(",");
+            let sep = r.pick(&["##", "#@#", "#?#", "#@?#", "#$#", "#%#", "#", "###", "# #"]);
+            let body = r.pick(&[".ad", "#id", ".a:style(x: y)", ".a:remove()", ".a:remove-attr(k)", ".a:remove-class(k)", "+js(f1)", "+js(f2, a, b)", "^script", "", " .x ", ".a:has-text(x)", ".x, .y", "+js(f1))", "+js(f1)x", ".a:style(x)) "]);
+            format!("{}{}{}", loc, sep, body)
+        }
+    };
+    let base = if r.pct(20) { mutate(r, &base) } else { base };
+    base.chars().filter(|c| *c != '\n').collect()
+}
+
+pub fn sarg_soup(r: &mut Rng) -> String {
+    let atoms = ["f1", "a", "b c", " ", "  ", ",", ", ", "\"", "'", "`", "\\", "\\,", "\\\\", "\\\\,", "\"q\"", "'q'", "`q`", "\"a, b\"", "\"a\\\"b\"", "'it\\'s'", "x\\", "\u{a0}", "\u{e9}", "\"unterminated", "\"a\"b", "\"a\" ,", "\"a\"  ", "/re,x/", "{\"k\": 1}", "\t"];
+    let n = r.below(6);
+    (0..n).map(|_| r.pick(&atoms).to_string()).collect::<Vec<_>>().join(if r.pct(50) { "," } else { "" })
+}
+
+fn run_cparse(seed: u64, n: usize, out: &mut Out) {
+    let mut r = Rng::new(seed ^ 0x5555);
+    let scripts = crate::cosm::script_pool();
+    for _ in 0..n {
+        let line = cosmetic_line(&mut r, &scripts);
+        let l2 = line.clone();
+        let imp = match guarded(move || CosmeticFilter::parse(&l2, false, PermissionMask::from_bits(0))) {
+            Ok(Ok(f)) => show_cosmetic(&f),
+            Ok(Err(e)) => format!("ERR:{:?}", e),
+            Err(p) => {
+                out.fail("parse-panicked", None, json!({"api": "CosmeticFilter::parse", "line": line, "panic": p}));
+                "PANIC".to_string()
+            }
+        };
+        out.bump(if imp.starts_with("ERR:") { "cparse:rejected" } else { "cparse:accepted" });
+        if !line.is_ascii() {
+            // IDNA is outside the model: non-ASCII lines only take part in the totality stream
+            out.bump("cparse:non_ascii_not_compared");
+            continue;
+        }
+        out.case(&format!("cparse\t{}", hex(&line)), &imp, json!({"api": "CosmeticFilter::parse", "line": line, "impl": imp.chars().take(120).collect::<String>()}), !imp.starts_with("ERR:"));
+    }
+}
+
+pub fn run_sargs(seed: u64, n: usize, out: &mut Out) {
+    let mut r = Rng::new(seed ^ 0x6666);
+    for _ in 0..n {
+        let a = sarg_soup(&mut r);
+        let a2 = a.clone();
+        let imp = match guarded(move || adblock::resources::verif_parse_scriptlet_args(&a2)) {
+            Ok(Some(v)) => format!("+{}", v.iter().map(|x| hex(x)).collect::<Vec<_>>().join(",")),
+            Ok(None) => "NONE".to_string(),
+            Err(p) => {
+                out.fail("parse-panicked", None, json!({"api": "parse_scriptlet_args", "args": a, "panic": p}));
+                "PANIC".to_string()
+            }
+        };
+        out.case(&format!("sargs\t{}", hex(&a)), &imp, json!({"api": "parse_scriptlet_args", "args": a, "impl": imp.chars().take(120).collect::<String>()}), imp != "NONE" && imp != "+");
+    }
 }
